@@ -307,6 +307,97 @@ def gen_targeted(rng, count=60):
     return out
 
 
+def gen_batch(rng, count=60):
+    """single parts and batches through batchers, buffers, processors and sinks"""
+    out = []
+    while len(out) < count:
+        bsrc = rng.choice([-1, -1, 1, 2, 3, 3, 0])
+        devs = [src(rng.choice([1, 2, 3]), rng.choice([4, 6, 9, -1]), pval=rng.choice([0, 1, 2]), bsrc=bsrc)]
+        shape = rng.choice(['b', 'bb', 'buf-b', 'b-buf-b', 'b-proc-b', 'buf-b-buf'])
+        biggest = max(bsrc, 1)
+        for tok in shape.split('-'):
+            up = [len(devs)]
+            if tok in ('b', 'bb'):
+                for _ in tok:
+                    n = rng.choice([0, 0, 1, 2, 3])
+                    devs.append(dev('batcher', [len(devs)], bsize=n))
+                    biggest = max(n, 1) if n > 0 else 1
+            elif tok == 'buf':
+                if bsrc == 0 and len(devs) == 1:
+                    devs.append(dev('batcher', up, bsize=rng.choice([0, 2])))   # empty batches go to a batcher first
+                    biggest = 2
+                    up = [len(devs)]
+                cap = rng.choice([biggest, biggest + 1, 2 * biggest, 6, -1])
+                if cap != -1:
+                    cap = max(cap, biggest, 1)
+                devs.append(dev('buffer', up, cap=cap, delay=rng.choice([0, 0, 1, 2])))
+            elif tok == 'proc':
+                devs.append(dev('processor', up, cyc=rng.choice([1, 2, 3]), vadd=rng.choice([0, 1])))
+        if bsrc == 0 and devs[1]['kind'] != 'batcher':
+            continue
+        devs.append(dev('sink', [len(devs)], cyc=rng.choice([0, 0, 1, 3])))
+        script = []
+        if rng.random() < 0.4:
+            tgt = rng.choice([d for d in range(2, len(devs) + 1)])
+            t = rng.choice([2, 4, 6])
+            script = [dict(t=t, call='block', dev=tgt), dict(t=t + rng.choice([2, 5]), call='unblock', dev=tgt)]
+        cfg = norm(dict(devs=devs, script=script, horizon=rng.choice([16, 24, 32])))
+        if is_well_posed(cfg):
+            cfg['family'] = 'batch'
+            out.append(cfg)
+    return out
+
+
+def gen_gates(rng, count=60):
+    """decision gates: complementary predicates on part parity or on a quality set by a processor,
+    gate chains, a gate in front of a buffer, congestion behind the gates"""
+    out = []
+    while len(out) < count:
+        shape = rng.choice(['parity', 'quality', 'chain', 'gate-buffer', 'parity'])
+        devs = [src(rng.choice([1, 2]), rng.choice([4, 6, -1]), pval=1)]
+        if shape == 'parity':
+            devs.append(dev('gate', [1], pred='even'))
+            devs.append(dev('gate', [1], pred='odd'))
+            devs.append(dev(rng.choice(['handler', 'processor']), [2], cyc=rng.choice([1, 3, 5])))
+            devs.append(dev(rng.choice(['handler', 'processor', 'buffer']), [3], cyc=rng.choice([1, 2, 4]), cap=1))
+            if rng.random() < 0.5:
+                devs.append(dev('sink', [4, 5], cyc=rng.choice([0, 2])))
+            else:
+                devs.append(dev('sink', [4], cyc=0))
+                devs.append(dev('sink', [5], cyc=rng.choice([0, 3])))
+        elif shape == 'quality':
+            devs.append(dev('processor', [1], cyc=rng.choice([1, 2]), qset=rng.choice([2, 3])))
+            devs.append(dev('gate', [2], pred='q1'))
+            devs.append(dev('gate', [2], pred='q2'))
+            devs.append(dev('handler', [3], cyc=rng.choice([1, 4])))
+            devs.append(dev('buffer', [4], cap=rng.choice([1, 2]), delay=rng.choice([0, 2])))
+            devs.append(dev('sink', [5], cyc=0))
+            devs.append(dev('sink', [6], cyc=rng.choice([0, 2, 5])))
+        elif shape == 'chain':
+            devs.append(dev('gate', [1], pred='all'))
+            devs.append(dev('gate', [2], pred=rng.choice(['all', 'even'])))
+            devs.append(dev('gate', [2], pred=rng.choice(['all', 'odd'])))
+            devs.append(dev('processor', [3], cyc=rng.choice([2, 3])))
+            devs.append(dev('processor', [4], cyc=rng.choice([2, 5])))
+            devs.append(dev('sink', [5, 6], cyc=rng.choice([0, 1])))
+        else:
+            devs.append(dev('handler', [1], cyc=1))
+            devs.append(dev('gate', [2], pred=rng.choice(['all', 'even'])))
+            devs.append(dev('gate', [2], pred='odd'))
+            devs.append(dev('buffer', [3], cap=rng.choice([1, 2]), delay=rng.choice([0, 1])))
+            devs.append(dev('sink', [5], cyc=rng.choice([1, 3])))
+            devs.append(dev('sink', [4], cyc=0))
+        script = []
+        if rng.random() < 0.5:
+            tgt = rng.choice(range(2, len(devs) + 1))
+            t = rng.choice([1, 3, 5])
+            script += [dict(t=t, call='block', dev=tgt), dict(t=t + rng.choice([2, 4, 7]), call='unblock', dev=tgt)]
+        cfg = norm(dict(devs=devs, script=script, horizon=rng.choice([16, 24])))
+        cfg['family'] = 'gates'
+        out.append(cfg)
+    return out
+
+
 def quick_family(seed, scale=1):
     """The configurations of the quick tier (a few hundred)."""
     rng = random.Random(seed * 7919 + 13)
@@ -322,6 +413,9 @@ def quick_family(seed, scale=1):
     out += res
     out += [add_faults(rng, c, rng.choice([1, 2, 4])) for c in gen_resources(rng, 60 * scale)]
     out += gen_targeted(rng, 90 * scale)
+    out += gen_batch(rng, 90 * scale)
+    out += gen_gates(rng, 70 * scale)
+    out += [add_faults(rng, c, rng.choice([1, 2, 3])) for c in gen_gates(rng, 40 * scale) + gen_batch(rng, 40 * scale)]
     # split runs: a third of the configurations is also run in two or three consecutive runs
     for c in list(out):
         if rng.random() < 0.2 and not c['splits']:
